@@ -96,6 +96,11 @@ def collect_contract(rep):
             other.known_not_none = True
             other.neg = (ast.Parameter,)
             p2 = SymObj({ast.Parameter}, 'param2', prov='param')
+            for p_ in (p1, p2):
+                # as the parsers build them: every placeholder is Parameter('?') - structurally equal, distinct objects
+                p_.known_not_none = True
+                p_.closed = True
+                p_.fields.update(value='?', alias=None, parentheses=False)
             for n in (p1, other, p2):
                 st['shown'].append(n)
                 st['rets'].append(ex.call(cb, [n], dict(KW)))
@@ -117,7 +122,8 @@ def collect_contract(rep):
     outs, ex, bad = _explore(UTILS, 'get_query_params', body)
     v = bad or _judge(outs, ex, post)
     _emit(rep, 'C12.collect', v, fn,
-          'ensures result == [n for n in visit_sequence(query) if isinstance(n, Parameter)] (the visitor appends exactly the Parameter nodes it is shown, in call order)')
+          'ensures result == [n for n in visit_sequence(query) if isinstance(n, Parameter)] (the visitor appends exactly the Parameter nodes it is shown, in call order)',
+          replay=lambda: replay_fill())
 
 
 # ------------------------------------------------------------------ fill_query_params
